@@ -1,5 +1,5 @@
 (* C12 model driver: runs the extracted SmpModel on case lines from stdin, one output line per case.
-   CASE mode nv {tsf nc coeff*nc}*nv  nb {tsf nbv v*nbv k c*nbv}*nb  use_script script_after nsc {v f}*nsc  nsteps
+   CASE mode nv {tsf nc coeff*nc exp*nc scripted}*nv  nb {tsf nbv v*nbv k c*nbv}*nb  use_script script_after nsc {v f}*nsc  nsteps
         { nfs {v n f*n}*nfs   z*(all components of all variables)   np p*np }*nsteps
    mode = serial | smp | unfixed (unfixed: only the evaluated components are computed with the pre-repair meaning of an item)
    p* = a permutation of 0..np-1 (np >= number of items); the executed order of a loop with n items is its entries < n *)
@@ -25,8 +25,14 @@ let () =
         (* set_error_bits(code): errorCode |= code | COLVARS_ERROR, from one thread per code *)
         let codes = List.map (fun s -> Z.coq_lor (z_of_int (int_of_string s)) (z_of_int 1)) (List.tl (Array.to_list w)) in
         Printf.printf "ERRBITS %d\n" (int_of_z (or_codes codes))
+      end else if Array.length w > 0 && w.(0) = "OMPSTATIC" then begin
+        (* OMPSTATIC n nt : the OpenMP thread of every item under the static schedule *)
+        let n = int_of_string w.(1) and nt = int_of_string w.(2) in
+        print_string "ITHREADS";
+        for i = 0 to n - 1 do Printf.printf " %d" (int_of_nat (omp_thread_of (nat_of_int n) (nat_of_int nt) (nat_of_int i))) done;
+        print_newline ()
       end else if Array.length w > 0 && w.(0) = "FOOT" then begin
-        (* FOOT t nv {tsf nc flag*nc coeff*nc}*nv nb {tsf nbv v*nbv k c*nbv}*nb use after nsc {v f}*nsc : the model's footprint table *)
+        (* FOOT t nv {tsf nc flag*nc coeff*nc exp*nc scripted}*nv nb {tsf nbv v*nbv k c*nbv}*nb use after nsc {v f}*nsc : the model's footprint table *)
         let p = ref 1 in
         let next () = let s = w.(!p) in Stdlib.incr p; s in
         let ni () = int_of_string (next ()) in
@@ -37,7 +43,9 @@ let () =
             let tsf = ni () in let nc = ni () in
             let fl = List.init nc (fun _ -> nb ()) in
             let coeff = List.init nc (fun _ -> z_of_int (ni ())) in
-            { v_tsf = nat_of_int tsf; v_flags = fl; v_pending = []; v_coeff = coeff }) in
+            let ex = List.init nc (fun _ -> nat_of_int (ni ())) in
+            let scr = nb () in
+            { v_tsf = nat_of_int tsf; v_flags = fl; v_pending = []; v_coeff = coeff; v_exp = ex; v_scripted = scr }) in
         let nbias = ni () in
         let biases = List.init nbias (fun _ ->
             let tsf = ni () in let nbv = ni () in
@@ -67,7 +75,9 @@ let () =
         let vars = List.init nv (fun _ ->
             let tsf = ni () in let nc = ni () in
             let coeff = List.init nc (fun _ -> z_of_int (ni ())) in
-            { v_tsf = nat_of_int tsf; v_flags = List.init nc (fun _ -> true); v_pending = []; v_coeff = coeff }) in
+            let ex = List.init nc (fun _ -> nat_of_int (ni ())) in
+            let scr = nb () in
+            { v_tsf = nat_of_int tsf; v_flags = List.init nc (fun _ -> true); v_pending = []; v_coeff = coeff; v_exp = ex; v_scripted = scr }) in
         let nbias = ni () in
         let biases = List.init nbias (fun _ ->
             let tsf = ni () in let nbv = ni () in
